@@ -19,6 +19,7 @@ META = {
         "R05.2": "exactly num_opens() recursive parses per instruction, each result appended as Block immediately",
         "R05.3": "Close returns iff nested; entry passes (true, genome.into_iter(), fresh vec) and returns that vec",
         "R05.4": "NumOpens table and forwarding dispatchers",
+        "R05.6": "the genome and program constructors keep the genes as given: Plushy::new collects its argument in order, PushGene::from / PushProgram::from wrap the instruction",
         "R05.5": "panic-site audit of the translation",
     },
     "trusted_base": ["std Vec::push / vec::IntoIter order", "uecfacts driver + uecheck rule engine"],
@@ -41,6 +42,8 @@ def payload_of(e, variant):
 
 
 def check(ctx):
+    from .ctors import check_table
+    check_table(ctx, "C05", "R05.6")
     F = ctx.F
     f = ctx.fn(PARSE)
     at = f.at()
